@@ -3,24 +3,33 @@ from common import Rng
 CONFIG = dict(
     claimed=True,
     level_text="Kernel-checked Lean theorems over ALL histories of the restarting-speaker model (RestartingDeferral + the "
-               "per-family RIB deferral flag + the glue that couples them): the C11 reference checker accepts every model run; "
-               "while a family is deferred no change for it is emitted by any RIB mutator; a family is released exactly at the "
-               "step after which no pending helper holds it, or at timer expiry; the release announces exactly the prefixes "
-               "held, once each, and clears the flag; a non-GR peer never enters `pending`; the machine is never left "
-               "AwaitingStart/Deferring with empty `pending`; no family is released twice.  The model is tied to "
-               "daemon/src/gr.rs + table deferral by running the real RestartingDeferral and a real TableManager on the same "
-               "generated histories and diffing every output, pending set, flag and distributed NlriChange, with the "
-               "reference checker as oracle on the real observations.",
+               "per-family RIB deferral flag + the glue that couples them + the selection-deferral timer handle): the C11 "
+               "reference checker accepts every model run; while a family is deferred no change for it is emitted by any RIB "
+               "mutator; a family is released exactly at the step after which no pending helper holds it, or at timer expiry; "
+               "the release announces exactly the prefixes held, once each, with the flags every neighbour acts on, and clears "
+               "the deferral flag; the timer is requested exactly when the first helper establishes with GR, with the "
+               "configured duration, and is armed until nothing is waited for; the restarting flag (selection_deferral "
+               "installed) is set exactly while something is waited for; a non-GR peer never enters `pending`; the machine "
+               "is never left installed AwaitingStart/Deferring/Completed with empty `pending`; no family is released twice.  "
+               "The model is tied to the daemon by driving, on the same generated histories, the REAL process_effects("
+               "GrSessionEstablished / GrEorReceived), process_restarting_outputs, gr_selection_deferral_timer_expired and "
+               "(over a loopback connection) accept_connection + PeerSession::run against a real Global and a real "
+               "TableManager, and diffing every output, pending set, Global.selection_deferral(_timer), flag and distributed "
+               "NlriChange (with best_changed/any_changed), with the reference checker as oracle on the real observations.",
     level_note="Trusted: Lean kernel; axioms propext/Classical.choice/Quot.sound; hand-written model (checked only by the "
-               "correspondence stream); harness transcription of process_restarting_outputs and of the start-up block "
-               "(~25 lines, private to crate::event). Modelled, not verified: tokio timer task / abort handle, the R-bit "
-               "derived from selection_deferral.is_some(), route ranking inside a destination (C02).",
+               "correspondence stream); in harness/daemon/c11.rs the start-up block of `serve` (gr_peers from the peer "
+               "configs, duration default 360 s / 0 = disabled, RestartingDeferral::new, start_deferral_families, install; "
+               "~20 lines, inside the body of `serve`, which owns its Global) is transcribed; the machine outputs are taken "
+               "from a second RestartingDeferral fed the same inputs (the real glue consumes the real ones).  Modelled, not "
+               "verified: the tokio sleep inside the timer task (the expiry handler is called directly), route ranking "
+               "inside a destination (C02).",
     lean_modules=["Rbgp.Gr.Restarting.Props"],
     theorems=[
         "Rbgp.Gr.Restarting.Props.check_run_ok",
         "Rbgp.Gr.Restarting.Props.rel_after",
         "Rbgp.Gr.Restarting.Props.deferring_silent",
         "Rbgp.Gr.Restarting.Props.deferring_silent_step",
+        "Rbgp.Gr.Restarting.Props.change_free_or_released",
         "Rbgp.Gr.Restarting.Props.family_complete_iff",
         "Rbgp.Gr.Restarting.Props.release_clears_flag",
         "Rbgp.Gr.Restarting.Props.timer_ends_all",
@@ -34,24 +43,32 @@ CONFIG = dict(
         "Rbgp.Gr.Restarting.Props.completes_iff_pending_empty",
         "Rbgp.Gr.Restarting.Props.each_family_released_once",
     ],
-    harness=dict(kind="daemon", test="gr::verif_gr::verif_main"),
+    harness=dict(kind="daemon", test="event::verif_event::c11::verif_main"),
     profiles=["debug"],
     n_quick=2500, n_thorough=40000, shards=12,
     nontrivial_re=r"\(complete |\(end ",
     rule="histories over <= 4 peer addresses (3 configurable helpers + 1 stranger) x 3 families x 4 prefixes: "
          "peer-established with any GR family subset (empty = no GR), End-of-RIB, peer-withdrawn, timer-expired, interleaved "
          "with route insertions / withdrawals / per-peer family drops into the (deferred) tables; mostly-sane stream (EOR "
-         "only from established GR peers, timer only once started) + an unconstrained stream; plus, computed by BFS in the "
+         "only from established GR peers, timer only once started) + an unconstrained stream (EOR from strangers and stale "
+         "timer expiries are in the oracle's domain and must change nothing); selection-deferral time absent / 0 / 360 / 7; "
+         "plus, computed by BFS in the "
          "model: every reachable machine state x every input (configured peers + a stranger, every family subset), each "
          "state driven along a shortest path with routes inserted before (quick: 2 helpers x 2 configured families = 703 "
          "cases; thorough: 3 helpers x 3 families, three more configurations, and random extensions of the shortest "
          "paths); non-trivial = some family was released; distinct = distinct case line",
-    expect_tokens=["(complete 0)", "(complete 1)", "(complete 2)", "(end ())", "(end (", "awaiting", "deferring", "completed",
-                   "absent", "(timer (some", "(timer none)", "(defer ("],
-    trusted_base=["model Rbgp/Gr/Restarting/Model.lean of daemon/src/gr.rs RestartingDeferral + Rib.deferring coupling",
-                  "harness/daemon/gr.rs: process_restarting_outputs and the start-up block of event/mod.rs are transcribed "
-                  "(they are private to crate::event); Rib.deferring is observed by a probe insert/remove on every shard"],
-    modelled_not_verified=["the selection-deferral timer task (spawn/abort) — the timer is an explicit event",
+    expect_tokens=["(complete 0)", "(complete 1)", "(complete 2)", "(end ())", "(end (0", "(end (1", "(end (2", "awaiting", "deferring",
+                   "absent", "(timer (some 360", "(timer (some 7", "(timer none)", "(defer (", " adv)", " chg)"],
+    trusted_base=["model Rbgp/Gr/Restarting/Model.lean of daemon/src/gr.rs RestartingDeferral + Rib.deferring coupling + glue",
+                  "harness/daemon/c11.rs: the start-up block of `serve` (event/mod.rs, `if is_restarting && bgp.is_some()`) is "
+                  "transcribed: `serve` owns its Global and never returns, so the block cannot be called; a wrong duration "
+                  "default or peer set THERE is not detected by this check",
+                  "harness/daemon/c11.rs: the output list shown in an observation comes from a shadow RestartingDeferral fed "
+                  "the same inputs; state, flags, timer handle and changes are read from the real Global / TableManager",
+                  "Rib.deferring is observed by a probe insert/remove on every shard",
+                  "when no loopback connection can be made from 127.0.0.(2+p), `wd` falls back to feeding PeerWithdrawn as the "
+                  "tail of PeerSession::run does"],
+    modelled_not_verified=["the sleep of the selection-deferral timer task: expiry is an explicit event calling the real handler",
                            "one path per (peer, prefix), no import filtering, no next-hop invalidation (C02/C06 cover ranking "
                            "and filtered paths)"],
     assumptions=["RestartingDeferral is only touched under the global write lock, so its inputs are a sequence"],
@@ -84,7 +101,7 @@ def gen_case(r, sane):
     cfgd = {}
     for p, fs in peers:
         cfgd[p] = fs
-    dur = "none" if r.chance(1, 5) else "(some %d)" % r.pick([1, 360])
+    dur = r.pick(["none", "(some 0)", "(some 360)", "(some 360)", "(some 7)"])
     n = 1 + r.below(r.pick([4, 8, 14, 24]))
     evs = []
     up = {}
